@@ -3,12 +3,12 @@ CONSTANTS
   Thr = {t1}
   PreCreated = 1
   Kinds = {"spawn"}
-  TaskStop = TRUE
+  TaskStop = FALSE
   AtomicCalls = TRUE
   EagerJoin = TRUE
   MaxCmds = 3
   MaxSys = 2
-  Codes <- CodesWithNeg
+  Codes = {0, 7}
   AllowBusy = FALSE
   FifoLocalQueue = TRUE
   StopEndsLoop = TRUE
@@ -25,13 +25,13 @@ CONSTANTS
   BlockOnExact = TRUE
   SelfSend = FALSE
   SelfSendViaChannel = TRUE
-  NegCodeIsErr = FALSE
+  NegCodeIsErr = TRUE
   CtrlBatch = 0
-  StartIdle = FALSE
+  StartIdle = TRUE
   EveryExitStops = TRUE
   RxDropAtLoopEnd = TRUE
 SPECIFICATION Spec
 VIEW View
 SYMMETRY ThrSym
-INVARIANTS C09_FirstCodeWins C09_AllRegisteredStop C09_RunErrOnNonZero C09_EarlyStoppedDeregistered
+INVARIANTS TypeOK C09_FirstCodeWins C09_AllRegisteredStop C09_RunErrOnNonZero C09_EarlyStoppedDeregistered C09_RegistryExact
 CHECK_DEADLOCK FALSE
